@@ -138,4 +138,17 @@ META = {
         "level_note": "trusted: the injected violations are faithful to what a buggy plugin returns; chunks <= 500 rows",
         "technique": "fault injection at the plugin boundary (enumerated) + consumer-side contract monitor on yielded chunks + post-run storage probe",
     },
+    "C03": {
+        "level_text": (
+            "Random contiguous chunk sequences (three structured dtypes incl. array-valued, bool and titled "
+            "fields and both end-time encodings; overlapping rows; empty and zero-duration chunks) are written "
+            "through the real saver and read back through the real loader for every combination of compressor x "
+            "rechunk x serial/pool saving x serial/pool loading; rows must be bit-identical, the range and "
+            "contiguity preserved, boundaries unchanged (or only merged / cut in row-free gaps when rechunking), "
+            "and a metadata oracle compares every per-chunk and top-level metadata field with the files on disk "
+            "and the loaded chunks."
+        ),
+        "level_note": "trusted: metadata oracle in vf/mon/storagemd.py; DataDirectory / FileSytemBackend only",
+        "technique": "round-trip runtime oracle (written vs loaded rows, boundaries) + metadata/file consistency monitor over exhaustive configuration product per random input",
+    },
 }
